@@ -324,6 +324,7 @@ Proof. apply (C10_parse_sound 20). vm_compute. reflexivity. Qed.
    Imports are kept inside a module: Peg.v and Grammar.v reuse short names (Ok, Seq, ...). *)
 Require Blots.Peg Blots.PegWf Blots.gen.Grammar Blots.proofs.PegGeneric Blots.proofs.PegPure Blots.proofs.PegIdent
         Blots.proofs.PegShift Blots.proofs.PegLayout Blots.proofs.PegBlots Blots.proofs.PegNumber Blots.proofs.PegString.
+Require Blots.PegTerm Blots.proofs.PegFuel Blots.proofs.PegFuelBlots.
 Module PegLayer.
 Import Blots.Peg Blots.PegWf Blots.gen.Grammar Blots.proofs.PegGeneric Blots.proofs.PegPure Blots.proofs.PegIdent.
 Import Blots.proofs.PegShift Blots.proofs.PegLayout Blots.proofs.PegBlots Blots.proofs.PegString.
@@ -615,6 +616,92 @@ Definition fuel_sufficient_full : Prop :=
     (forall r, In r rules) -> (forall r r', idx r = idx r' -> r = r') ->
     wf_grammar g rules idx = true ->
     exists c, forall r text, parse g (c * (String.length text + 1) * List.length rules) r text <> OutOfFuel.
+
+(* (d') termination PROVED (proofs/PegFuel.v, PegFuelBlots.v) from a computed TERMINATION CERTIFICATE
+   (coq/PegTerm.v) instead of [wf_grammar]: [term_cert g rules idx nl C dz] checks that the nullable set [nl] is
+   closed under the rules, no repetition body and no WHITESPACE / COMMENT rule is nullable, C >= 1, and that the
+   per-rule depth budgets [dz] dominate the left depth [dl] of every rule body (a rule call costs its callee's
+   budget + 1; whatever can only run after a consumed byte is discounted by C).  Such budgets cannot exist for a
+   left-recursive grammar, so the certificate implies what [wf_grammar] checks; what is NOT proved is the
+   converse direction needed for [fuel_sufficient_full] (that the depth-first search of [wf_grammar] finding no
+   cycle implies that budgets exist) — [fuel_sufficient_full] stays a Prop. *)
+Import Blots.PegTerm Blots.proofs.PegFuel Blots.proofs.PegFuelBlots.
+
+(* every grammar, every certificate: the interpreter never runs out of a fuel of |text| * C + dz r *)
+Theorem C10_peg_fuel_sufficient : forall (R : Type) (g : grammar R) (rules : list R) (idx : R -> N)
+    (nl : list R) (C : nat) (dz : R -> nat),
+  (forall r, In r rules) -> term_cert g rules idx nl C dz = true ->
+  forall fuel r text, String.length text * C + dz r <= fuel -> parse g fuel r text <> OutOfFuel.
+Proof. exact parse_total. Qed.
+Check C10_peg_fuel_sufficient : forall (R : Type) (g : grammar R) (rules : list R) (idx : R -> N)
+    (nl : list R) (C : nat) (dz : R -> nat),
+  (forall r, In r rules) -> term_cert g rules idx nl C dz = true ->
+  forall fuel r text, String.length text * C + dz r <= fuel -> parse g fuel r text <> OutOfFuel.
+Print Assumptions C10_peg_fuel_sufficient.
+
+(* the same for [run] on an arbitrary expression in an arbitrary state (L bytes left: L * C + dl e levels) *)
+Theorem C10_peg_run_fuel_sufficient : forall (R : Type) (g : grammar R) (rules : list R) (idx : R -> N)
+    (nl : list R) (C : nat) (dz : R -> nat),
+  (forall r, In r rules) -> term_cert g rules idx nl C dz = true ->
+  forall fuel m a la e (s : st R),
+    String.length (rest s) * C + dl g idx nl C dz e <= fuel -> reps_progress R idx nl e = true ->
+    run g fuel m a la e s <> OutOfFuel.
+Proof. exact run_total. Qed.
+Check C10_peg_run_fuel_sufficient : forall (R : Type) (g : grammar R) (rules : list R) (idx : R -> N)
+    (nl : list R) (C : nat) (dz : R -> nat),
+  (forall r, In r rules) -> term_cert g rules idx nl C dz = true ->
+  forall fuel m a la e (s : st R),
+    String.length (rest s) * C + dl g idx nl C dz e <= fuel -> reps_progress R idx nl e = true ->
+    run g fuel m a la e s <> OutOfFuel.
+Print Assumptions C10_peg_run_fuel_sufficient.
+
+(* soundness of the nullable analysis w.r.t. the interpreter: what it calls non-nullable consumes on success *)
+Theorem C10_peg_nonnullable_consumes : forall (R : Type) (g : grammar R) (rules : list R) (idx : R -> N)
+    (nl : list R) (C : nat) (dz : R -> nat),
+  (forall r, In r rules) -> term_cert g rules idx nl C dz = true ->
+  forall f m a la e (s s' : st R),
+    run g f m a la e s = Ok s' -> nullable R idx nl e = false ->
+    String.length (rest s') < String.length (rest s).
+Proof. exact run_progress. Qed.
+Check C10_peg_nonnullable_consumes : forall (R : Type) (g : grammar R) (rules : list R) (idx : R -> N)
+    (nl : list R) (C : nat) (dz : R -> nat),
+  (forall r, In r rules) -> term_cert g rules idx nl C dz = true ->
+  forall f m a la e (s s' : st R),
+    run g f m a la e s = Ok s' -> nullable R idx nl e = false ->
+    String.length (rest s') < String.length (rest s).
+Print Assumptions C10_peg_nonnullable_consumes.
+
+(* the regenerated grammar has a certificate with C = 48 whose budgets are all <= 128 (recomputed and re-checked
+   by vm_compute on every build) ... *)
+Example peg_grammar_certified :
+  term_cert blots_grammar all_grules grule_index blots_nl 48 blots_dz = true
+  /\ forallb (fun r => Nat.leb (blots_dz r) 128) all_grules = true.
+Proof. split; [exact blots_term_cert|exact blots_dz_le_128]. Qed.
+(* ... and the check does refuse left recursion, a nullable repetition body, and a C below the cycle depth *)
+Example cert_rejects_left_recursion : forall C d,
+  term_cert (mkgrammar (fun _ : unit => mkdef MNormal false (Seq (Ident tt) (Str "x"))) None None) [tt] (fun _ => 0%N)
+            [] C (fun _ => d) = false.
+Proof. exact cert_refuses_left_recursion. Qed.
+Example cert_rejects_nullable_repetition : forall nl C dz,
+  term_cert (mkgrammar (fun _ : unit => mkdef MNormal false (Rep (Opt (Str "x")))) None None) [tt] (fun _ => 0%N)
+            nl C dz = false.
+Proof. exact cert_refuses_nullable_repetition. Qed.
+
+(* C10_peg_total: on gen/Grammar.v, with the fuel [peg_fuel text] = 128 + 48 * bytes that the model
+   (PegToItems.parse_text, TextRun.run_text) and every PEG correspondence stream use, the parser model NEVER
+   returns OutOfFuel — for EVERY text and every start rule: acceptance is a total function of the text. *)
+Theorem C10_peg_total : forall r text, parse blots_grammar (peg_fuel text) r text <> OutOfFuel.
+Proof. exact blots_peg_total. Qed.
+Check C10_peg_total : forall r text, parse blots_grammar (peg_fuel text) r text <> OutOfFuel.
+Print Assumptions C10_peg_total.
+
+(* ... and the result does not depend on the fuel above that bound *)
+Theorem C10_peg_fuel_independent : forall fuel r text,
+  peg_fuel text <= fuel -> parse blots_grammar fuel r text = parse blots_grammar (peg_fuel text) r text.
+Proof. exact blots_parse_fuel_independent. Qed.
+Check C10_peg_fuel_independent : forall fuel r text,
+  peg_fuel text <= fuel -> parse blots_grammar fuel r text = parse blots_grammar (peg_fuel text) r text.
+Print Assumptions C10_peg_fuel_independent.
 End PegLayer.
 
 (* text -> pairs (Peg.v on gen/Grammar.v) -> items (PegToItems.v) -> AST (Pratt.v): ONE executable model of
